@@ -337,3 +337,157 @@ Proof.
   - destruct (leave_same_out RErrClosed c s) as (A' & B' & C' & _). repeat split; assumption.
   - repeat split; assumption.
 Qed.
+
+(* ---------------- after a CloseConnection frame nothing more is written ----------------
+   The write loop parks for good once a CloseConnection message has gone out completely (reader.go:
+   "stop processing messages ... <-c.done"), whoever submitted it (Shutdown, or a caller's own
+   SendMessage(MsgCloseConnection)) and whatever the reader answers — a refusal included. From then
+   on, for every continuation of the run, no byte is written, no request is accepted and no id is
+   assigned: the outbound stream of the connection is complete, and "ids on one connection are pairwise
+   distinct" is a statement about the ids given before that point. (A write loop that RESUMED after a
+   refused CloseConnection would need its counter to carry on where it stopped; that there is no such
+   transition is what this theorem states for the model and what the check family after-close pins on
+   the code.) *)
+Definition is_close (o : oframe) : bool := f_typ (o_frame o) =? T_CloseConnection.
+Definition parked_or_exit (w : wstate) : Prop := w = WParked \/ w = WExit.
+
+Lemma parked_step : forall cfg s e,
+  ack_inv s -> parked_or_exit (writer s) ->
+  out (step cfg s e) = out s /\ wire (step cfg s e) = wire s /\ assigned (step cfg s e) = assigned s /\
+  parked_or_exit (writer (step cfg s e)).
+Proof.
+  intros cfg s e Hack Hw.
+  destruct (is_writer_event e) eqn:He.
+  - destruct e; try discriminate He; cbn [step].
+    + unfold step_wdefault. destruct Hw as [Hw|Hw]; rewrite Hw; auto using or_introl, or_intror.
+      all: repeat split; unfold parked_or_exit; auto.
+    + unfold step_waccept. destruct Hw as [Hw|Hw]; rewrite Hw; repeat split; unfold parked_or_exit; auto.
+    + unfold step_wtakeack. destruct Hw as [Hw|Hw]; rewrite Hw; repeat split; unfold parked_or_exit; auto.
+    + unfold step_wwritehdr. destruct Hw as [Hw|Hw]; rewrite Hw; repeat split; unfold parked_or_exit; auto.
+    + unfold step_wwritepay. destruct Hw as [Hw|Hw]; rewrite Hw; repeat split; unfold parked_or_exit; auto.
+    + unfold step_writefail. destruct Hw as [Hw|Hw]; rewrite Hw; repeat split; unfold parked_or_exit; auto.
+    + unfold step_wseedone. destruct Hw as [Hw|Hw]; rewrite Hw.
+      * destruct (closed s); st_simpl_goal; repeat split; unfold parked_or_exit; auto.
+      * repeat split; unfold parked_or_exit; auto.
+  - destruct (nonwriter_same_out cfg s e Hack) as (Eo & Ewi & Ewr & Ea); [|assumption|].
+    + destruct Hw as [Hw|Hw]; rewrite Hw; discriminate.
+    + rewrite Eo, Ewi, Ewr, Ea. auto.
+Qed.
+
+Lemma parked_run_from : forall cfg evs s,
+  ack_inv s -> parked_or_exit (writer s) ->
+  out (run_from cfg s evs) = out s /\ wire (run_from cfg s evs) = wire s /\ assigned (run_from cfg s evs) = assigned s /\
+  parked_or_exit (writer (run_from cfg s evs)).
+Proof.
+  intros cfg evs. induction evs as [|e evs IH]; intros s Hack Hw; [cbn; auto|].
+  change (run_from cfg s (e :: evs)) with (run_from cfg (step cfg s e) evs).
+  destruct (parked_step cfg s e Hack Hw) as (A & B & C & D).
+  destruct (IH (step cfg s e) (ack_inv_step cfg s e Hack) D) as (A' & B' & C' & D').
+  rewrite A', B', C', A, B, C. auto.
+Qed.
+
+(* along every run: a CloseConnection frame in [out] means the write loop is parked (or has left) *)
+Lemma close_out_parks_step : forall cfg s e,
+  ack_inv s ->
+  (existsb is_close (out s) = true -> parked_or_exit (writer s)) ->
+  existsb is_close (out (step cfg s e)) = true -> parked_or_exit (writer (step cfg s e)).
+Proof.
+  intros cfg s e Hack IH H.
+  destruct (existsb is_close (out s)) eqn:Eold.
+  - destruct (parked_step cfg s e Hack (IH eq_refl)) as (_ & _ & _ & D). exact D.
+  - (* the CloseConnection frame is the one this step completes *)
+    clear IH. destruct (is_writer_event e) eqn:He.
+    + destruct e; try discriminate He; cbn [step] in *.
+      * unfold step_wdefault in *. destruct (writer s), (ackq s); try (rewrite Eold in H; discriminate).
+        destruct (closed s); st_simpl; rewrite Eold in H; discriminate.
+      * unfold step_waccept in *. destruct (writer s); try (rewrite Eold in H; discriminate).
+        destruct (lookup c (callers s)) as [[r|r|r i|r res0]|]; try (rewrite Eold in H; discriminate).
+        cbn zeta in H. unfold set_caller in H. destruct (q_wait r), (q_id r =? 0); st_simpl; rewrite Eold in H; discriminate.
+      * unfold step_wtakeack in *. destruct (writer s), (ackq s); st_simpl; rewrite Eold in H; discriminate.
+      * unfold step_wwritehdr in *. destruct (writer s) as [| | | o | o | | |]; try (rewrite Eold in H; discriminate).
+        destruct (f_len (o_frame (stamp_o cfg (version s) o)) =? 0) eqn:El; st_simpl; [|rewrite Eold in H; discriminate].
+        rewrite existsb_app, Eold in H. cbn in H. rewrite orb_false_r in H.
+        unfold after_frame. unfold is_close in H. rewrite H. left; reflexivity.
+      * unfold step_wwritepay in *. destruct (writer s) as [| | | o | o | | |]; try (rewrite Eold in H; discriminate).
+        st_simpl. rewrite existsb_app, Eold in H. cbn in H. rewrite orb_false_r in H.
+        unfold after_frame. unfold is_close in H. rewrite H. left; reflexivity.
+      * unfold step_writefail in *. destruct (writer s) as [| | | o | o | | |]; try (rewrite Eold in H; discriminate).
+        -- destruct (k <? header_sz); st_simpl; rewrite Eold in H; discriminate.
+        -- destruct (k <? f_len (o_frame o)); st_simpl; rewrite Eold in H; discriminate.
+      * unfold step_wseedone in *. destruct (writer s); try (rewrite Eold in H; discriminate);
+          destruct (closed s); st_simpl; rewrite Eold in H; discriminate.
+    + destruct (writer s) eqn:Ew.
+      1: { (* the loops do not exist yet: nothing has been written, and a non-writer step writes nothing *)
+           exfalso.
+           assert (Hout : out (step cfg s e) = out s).
+           { destruct e; try discriminate He; cbn [step];
+               try (match goal with |- out (?f _) = _ => unfold f | |- out (?f _ _) = _ => unfold f | |- out (?f _ _ _) = _ => unfold f end;
+                    unfold set_caller, init_fail, neg_fail, neg_fail_with, step_close;
+                    repeat match goal with
+                           | |- out (match ?x with _ => _ end) = _ => destruct x
+                           | |- out (if ?x then _ else _) = _ => destruct x
+                           end; st_simpl_goal; reflexivity).
+             - unfold step_see_closed. destruct (closed s); [apply (leave_same_out RErrClosed c s)|reflexivity].
+             - apply (leave_same_out RErrCtx c s).
+             - unfold step_rframe. destruct (reader s); try reflexivity.
+               destruct (take_waiter cfg true (length (peer_sent s)) f
+                           (note_close_resp f (set_peer_sent (peer_sent s ++ [f]) s))) as [s2 rep] eqn:Htw.
+               pose proof (take_waiter_same_out cfg true (length (peer_sent s)) f
+                             (note_close_resp f (set_peer_sent (peer_sent s ++ [f]) s))) as H2.
+               rewrite Htw in H2. cbn [fst] in H2. destruct H2 as (H2 & _).
+               st_simpl_goal. destruct (run_handler_same_out cfg (length (peer_sent s)) f h rep s2) as (H3 & _).
+               rewrite H3, H2. unfold note_close_resp. destruct (_ && _); st_simpl_goal; reflexivity.
+             - unfold step_peer_eof. destruct (reader s); try reflexivity. destruct p.
+               + unfold reader_dies. destruct (saw_close s); st_simpl_goal; reflexivity.
+               + unfold reader_dies. st_simpl_goal; reflexivity.
+               + destruct (take_waiter cfg false (length (peer_sent s)) f
+                             (note_close_resp f (set_peer_sent (peer_sent s ++ [f]) s))) as [s2 rep] eqn:Htw.
+                 pose proof (take_waiter_same_out cfg false (length (peer_sent s)) f
+                               (note_close_resp f (set_peer_sent (peer_sent s ++ [f]) s))) as H2.
+                 rewrite Htw in H2. cbn [fst] in H2. destruct H2 as (H2 & _).
+                 assert (H3 : out s2 = out s).
+                 { rewrite H2. unfold note_close_resp. destruct (_ && _); st_simpl_goal; reflexivity. }
+                 destruct (rep && (f_len f <=? max_buffered)).
+                 * unfold reader_dies. st_simpl_goal. exact H3.
+                 * destruct (run_handler_same_out cfg (length (peer_sent s)) f HBAll rep s2) as (H4 & _).
+                   unfold eof_after_dispatch, reader_dies.
+                   repeat match goal with
+                          | |- out (match ?x with _ => _ end) = _ => destruct x
+                          | |- out (if ?x then _ else _) = _ => destruct x
+                          end; st_simpl_goal; rewrite ?H4, ?H3; reflexivity.
+             - unfold step_conn_first. destruct (phase s); try reflexivity.
+               destruct (max_buffered <? f_len f); [unfold init_fail; st_simpl_goal; reflexivity|].
+               set (s2 := match first_handler cfg (f_typ f) with Some _ => _ | None => _ end).
+               assert (Hs2 : out s2 = out s).
+               { subst s2. destruct (first_handler cfg (f_typ f)) as [k|]; [|reflexivity].
+                 destruct k; try reflexivity. unfold ack_enqueue. destruct (Nat.ltb _ _); st_simpl_goal; reflexivity. }
+               destruct ((f_typ f =? T_ReaderEventNotification) && is_conn_success (f_info f)); unfold init_fail; st_simpl_goal; exact Hs2. }
+           rewrite Hout, Eold in H. discriminate. }
+      all: destruct (nonwriter_same_out cfg s e Hack) as (Eo & _); [rewrite Ew; discriminate|assumption|];
+        rewrite Eo, Eold in H; discriminate.
+Qed.
+
+Lemma close_out_parks : forall cfg evs,
+  existsb is_close (out (run cfg evs)) = true -> parked_or_exit (writer (run cfg evs)).
+Proof.
+  intros cfg evs. unfold run, run_from.
+  assert (G : forall s, ack_inv s -> (existsb is_close (out s) = true -> parked_or_exit (writer s)) ->
+              existsb is_close (out (fold_left (step cfg) evs s)) = true -> parked_or_exit (writer (fold_left (step cfg) evs s))).
+  { induction evs as [|e evs IH]; intros s Hack Hs; cbn; [assumption|].
+    apply IH; [now apply ack_inv_step|]. now apply close_out_parks_step. }
+  apply G; [apply ack_inv_init|]. cbn. discriminate.
+Qed.
+
+Theorem nothing_written_after_close_connection : forall cfg evs evs' o,
+  let s := run cfg evs in
+  In o (out s) -> f_typ (o_frame o) = T_CloseConnection ->
+  let s' := run_from cfg s evs' in
+  out s' = out s /\ wire s' = wire s /\ assigned s' = assigned s.
+Proof.
+  intros cfg evs evs' o s Hin Ht s'.
+  assert (Hex : existsb is_close (out s) = true).
+  { apply existsb_exists. exists o. split; [assumption|]. unfold is_close. rewrite Ht. reflexivity. }
+  pose proof (close_out_parks cfg evs Hex) as Hw. fold s in Hw.
+  destruct (parked_run_from cfg evs' s (ack_inv_run cfg evs) Hw) as (A & B & C & _).
+  auto.
+Qed.
